@@ -14,7 +14,7 @@ CHECK = {'rule': 'rapid-generated loop runs: tree shape (empty, deep, minimal, r
                               'consumers=1',
                               'consumers=5+']},
  'tiers': {'quick': [{'test': '^TestProp$', 'checks': 900, 'shards': 6, 'timeout': 240}],
-           'thorough': [{'test': '^TestProp$', 'checks': 15000, 'shards': 16, 'timeout': 3000}]}}
+           'thorough': [{'test': '^TestProp$', 'checks': 9000, 'shards': 16, 'timeout': 3000}]}}
 
 TEXT = {'technique': 'schedule-directed property testing (rapid): generated trees/filters/limits/delays/errors plus a generated plan for two verif yield '
               'points and a gated source; callback multiset vs. model walk, concurrency bound, Wait ordering',
